@@ -440,7 +440,11 @@ class RuleGen:
             else:
                 acts.append(self.assignment())
         if not any(a[0] == "as" for a in acts) and r.chance(0.7):
-            acts.insert(r.below(len(acts) + 1), self.assignment())
+            # (never between a changing method call and its announcement)
+            def is_seti(a):
+                return a[0] == "st" and a[1][0] == "meth" and a[1][2] == "SetI"
+            slots = [i for i in range(len(acts) + 1) if not (i > 0 and is_seti(acts[i - 1]))]
+            acts.insert(r.choice(slots), self.assignment())
         return acts
 
     def rules(self, k):
